@@ -56,7 +56,7 @@ FUNCTION_COUNTERS = ["fn_PBKDF1", "fn_PBKDF2_fast", "fn_PBKDF2_generic_hash", "f
 DECIDING = FUNCTION_COUNTERS + ["pbkdf2_fast_path", "pbkdf2_generic_path", "multikey_HKDF", "multikey_scrypt", "multikey_SP800_108",
                                 "refusals_seen", "refusal_HKDF", "refusal_scrypt", "refusal_bcrypt", "refusal_PBKDF1",
                                 "bcrypt_check_accepted", "bcrypt_check_rejected", "oracle_pair_agreed",
-                                "bcrypt_pw71", "bcrypt_pw72", "hkdf_at_limit", "s2v_zero_components"]
+                                "bcrypt_pw71", "bcrypt_pw72", "hkdf_at_limit", "s2v_zero_components", "concurrent_kdf_calls"]
 
 
 # =============================================================================================
@@ -81,6 +81,7 @@ def plan(tier, seed):
     add("pbkdf1", 1 if q else 2, 30 if q else 150)
     add("s2v", 1 if q else 2, 32 if q else 150)
     add("refusals", 1, 20 if q else 60)
+    add("concurrent", 1 if q else 3, 30 if q else 150)
     return specs
 
 
@@ -229,6 +230,60 @@ def run(spec, ctx):
         return
     env = Env(ctx)
     globals()["w_" + spec["kind"]](spec, ctx, env)
+
+
+def w_concurrent(spec, ctx, env):
+    """The same functions called from 8 threads at once on different inputs (the native parts - scrypt ROMix, the PBKDF2
+    assist, EksBlowfish - run without the GIL): every result must still be the specified bytes (stdlib oracles)."""
+    import hashlib
+    import sys
+    import threading
+    from Crypto.Protocol.KDF import scrypt, PBKDF2, HKDF, bcrypt
+    from Crypto.Hash import SHA256, SHA512, SHA224, SHA1
+    from ref import kdf as rk
+    sys.setswitchinterval(1e-6)
+    rng = ctx.rng
+    round_ = 0
+    while not ctx.expired():
+        round_ += 1
+        N, r = rng.choice([(1024, 8), (4096, 8), (2048, 4), (256, 8), (16384, 1)])
+        jobs = []
+        for t in range(8):
+            pw, salt = rng.randbytes(rng.randint(1, 20)), rng.randbytes(rng.randint(1, 16))
+            cnt, dk = rng.choice([2, 3, 50]), rng.choice([20, 25, 28, 33, 64, 65, 100])
+            hname, hmod = rng.choice([("sha224", SHA224), ("sha256", SHA256), ("sha512", SHA512), ("sha1", SHA1)])
+            jobs.append({"pw": pw, "salt": salt, "cnt": cnt, "dk": dk, "hname": hname, "hmod": hmod,
+                         "exp_scrypt": hashlib.scrypt(pw, salt=salt, n=N, r=r, p=1, dklen=32, maxmem=1 << 30),
+                         "exp_pbkdf2": hashlib.pbkdf2_hmac(hname, pw, salt, cnt, dk),
+                         "exp_hkdf": rk.hkdf(pw, 40, salt, "sha256", 1, b"c")})
+        # warm-up call (sequential), then all threads at once, several calls each
+        scrypt(jobs[0]["pw"], jobs[0]["salt"], 32, N, r, 1)
+        bad = []
+        barrier = threading.Barrier(8)
+
+        def body(j):
+            barrier.wait()
+            for rep in range(4):
+                g1 = scrypt(j["pw"], j["salt"], 32, N, r, 1)
+                g2 = PBKDF2(j["pw"], j["salt"], j["dk"], count=j["cnt"], hmac_hash_module=j["hmod"])
+                g3 = HKDF(j["pw"], 40, j["salt"], SHA256, 1, b"c")
+                for fn, g, e in (("scrypt", g1, j["exp_scrypt"]), ("PBKDF2", g2, j["exp_pbkdf2"]), ("HKDF", g3, j["exp_hkdf"])):
+                    if bytes(g) != e:
+                        bad.append((fn, j, bytes(g), e))
+        ths = [threading.Thread(target=body, args=(j,)) for j in jobs]
+        for t in ths:
+            t.start()
+        for t in ths:
+            t.join()
+        ctx.case(("concurrent", N, r))
+        ctx.count("concurrent_kdf_calls", 8 * 4 * 3)
+        ctx.ev(8 * 4 * 3 - len(bad))
+        for fn, j, g, e in bad[:5]:
+            ctx.check(False, "%s:wrong-value-under-concurrency" % fn,
+                      "a KDF result computed while other threads derive other keys differs from the specified bytes",
+                      {"function": fn, "N": N, "r": r, "password": j["pw"].hex(), "salt": j["salt"].hex(), "count": j["cnt"], "dkLen": j["dk"],
+                       "hash": j["hname"], "got": g.hex()[:80], "expected": e.hex()[:80], "mismatches_this_round": len(bad)})
+    ctx.sample({"concurrent": "8 threads x 4 repetitions x (scrypt, PBKDF2 fast path, HKDF) on different inputs vs hashlib / reference"})
 
 
 def got_value(ctx, func, o, expected, key_ok, what, witness):
